@@ -11,17 +11,17 @@ TECH = {
  "C01": "order-type decision table + value-set/CFG dominance rules + WaitGroup pairing + lost-update rule on go/ssa",
  "C02": "CFG launch-gate rule, dependency-verdict table, record-correspondence of stage wiring, on go/ssa + AST",
  "C03": "CFG must-pass-through (re-trigger) rules, expiry-handler path table, composition of decision tables",
- "C04": "path/effect table of the cancel function, CFG dominance, discharger rule on the scheduler's cancel exit",
+ "C04": "path/effect table of the cancel function, CFG dominance, discharger rule on the scheduler's cancel exit, lock/unlock pairing on all paths (package taskctl)",
  "C05": "order-type decision table of the admission function; per-path effect classification of the accept function",
  "C06": "SSA-form classification of wait-list mutations; lost-update (stale write-back) rule",
- "C07": "decision-table row + argument-flow of the timer + CFG edge-dominance (timer gate) + who-may-write + running-predicate table",
- "C08": "dependency-verdict and stage-result path tables; fail-fast effect table; field wiring",
+ "C07": "decision-table row + argument-flow of the timer + CFG edge-dominance (timer gate) + who-may-write + running-predicate table + nil-guard dominance of every timer use",
+ "C08": "dependency-verdict and stage-result path tables; fail-fast effect table; error propagation from the command loop to the stage goroutine on all paths; field wiring",
  "C11": "CFG region/ordering rules, WaitGroup pairing, persist-coverage typestate, signal argument flow",
- "C12": "order-type decision table of the retention decision; CFG must-pass (removal effects); comparator orientation",
+ "C12": "order-type decision table of the retention decision; CFG must-pass (removal effects); comparator orientation; orientation of the list-removal comparison on the loop-body paths",
  "C15": "sibling-agreement over enumerated paths; comparator orientation; map-order-leak rule on the AST",
  "C16": "who-reads / who-writes rules over the resolved program; record correspondence of the job snapshot",
- "C18": "argument-flow (merge order) rules, per-job allocation rule, reserved-name dominance rule",
- "C19": "labelled value flow of the stream writers to sink positions (field-based through holder structs); key-expression agreement; dominance of the membership test; ownership (no package-level state behind a writer); close-only-when-deferred typestate; reserved-name dominance rule",
+ "C18": "argument-flow (merge order) rules, per-job allocation rule, reserved-name dominance rule, path table of the process-environment filter",
+ "C19": "labelled value flow of the stream writers to sink positions (field-based through holder structs); key-expression agreement; dominance of the membership test; ownership (no package-level state behind a writer); close-only-when-deferred typestate; reserved-name dominance rule; open-result path table of the file store",
  "C20": "field/argument-flow rules on the exec handler (Setpgid, negative pid, SIGKILL escalation), CFG must-pass, who-may-spawn, WaitGroup pairing of the stage goroutines",
 }
 for pid, d in D.items():
@@ -64,11 +64,11 @@ m = {
         "name": "prunnerlint",
         "path": "checker/",
         "serves_properties": [c["property_id"] for c in checks],
-        "kind_free_text": "repository-specific static analyser: go/packages type-checked load of /repo's working tree, go/ssa, VTA call graph; lockset dataflow, CFG must-pass rules, acyclic path enumeration with helper inlining (decision/effect tables evaluated on order types), def-use flow, record-correspondence and router abstract interpretation; anchors are resolved by behaviour (function roles, field roles), not by name (DESIGN.md sections 4, 11.7–11.12)",
+        "kind_free_text": "repository-specific static analyser: go/packages type-checked load of /repo's working tree, go/ssa, VTA call graph; lockset dataflow, CFG must-pass rules, acyclic path enumeration with helper inlining (decision/effect tables evaluated on order types), def-use flow, record-correspondence and router abstract interpretation; anchors are resolved by behaviour (function roles, field roles), not by name (DESIGN.md sections 4, 11.7–11.13)",
     }],
     "checks": checks,
     "not_applicable": na,
-    "notes": "All checks are static: nothing in /repo is executed and no test is run. The thorough tier repeats the quick rules on 9 build configurations and then measures the rules (it never changes the verdict on /repo): ~340 single-edit variants (audit/), 160 seeded breaking changes from independent sub-agents plus 8 own mutants on refactored forms (seeded/) that must be reported, and 200 behaviour-preserving refactorings and small harmless edits from independent sub-agents (seeded-equivalent/) on which the rules must stay silent (3 of them are known limits and still alarm, DESIGN.md 11.10) — all loaded through an in-memory overlay; a thorough run takes several minutes per property. Each check loads /repo's current working tree on every run, reports file:line + rule + construct for a violation, and writes evidence/<id>.json. known_findings.json lists open findings (none suppresses anything but its own rule+construct) and fixed ones (which suppress nothing). 'fix:' commits in /repo repair genuine defects found by these rules.",
+    "notes": "All checks are static: nothing in /repo is executed and no test is run. The thorough tier repeats the quick rules on 9 build configurations and then measures the rules (it never changes the verdict on /repo): ~396 single-edit variants (audit/, among them the mutants and behaviour-preserving variants that came out of a mutation sweep over all 616 single-token mutants of the sources, DESIGN.md 11.13), 160 seeded breaking changes from independent sub-agents plus 8 own mutants on refactored forms (seeded/) that must be reported, and 200 behaviour-preserving refactorings and small harmless edits from independent sub-agents (seeded-equivalent/) on which the rules must stay silent (3 of them are known limits and still alarm, DESIGN.md 11.10) — all loaded through an in-memory overlay; a thorough run takes several minutes per property. Each check loads /repo's current working tree on every run, reports file:line + rule + construct for a violation, and writes evidence/<id>.json. known_findings.json lists open findings (none suppresses anything but its own rule+construct) and fixed ones (which suppress nothing). 'fix:' commits in /repo repair genuine defects found by these rules.",
 }
 json.dump(m, open(os.path.join(here, "MANIFEST.json"), "w"), indent=1)
 print("checks:", [c["property_id"] for c in checks], "na:", len(na))
